@@ -47,7 +47,7 @@ def gen_conv(rng):
     anon = [False] + [rng.random() < 0.4 for _ in range(1, nmod)]
     items = []
     for _ in range(rng.randrange(2, 10)):
-        kind = rng.choice(["reg", "reg", "fsm", "mem", "clocksig", "renamed"])
+        kind = rng.choice(["reg", "reg", "fsm", "mem", "clocksig", "renamed", "cached"])
         it = {"kind": kind, "mod": rng.randrange(nmod), "dom": rng.choice(doms), "name": rng.choice(["a", "b", "ctr", "x", "state"])}
         if kind == "fsm":
             it["doms"] = rng.sample(doms, min(len(doms), rng.randrange(1, 4)))
@@ -55,6 +55,8 @@ def gen_conv(rng):
             it["rdom"] = rng.choice(doms + ["comb"])
         if kind == "renamed":
             it["to"] = rng.choice(doms)
+        if kind == "cached":
+            it["cached_as"] = "instance" if rng.random() < 0.15 else "module"
         items.append(it)
     return {"doms": doms, "defined": defined, "tree": tree, "anon": anon, "items": items}
 
@@ -103,6 +105,11 @@ def build_conv(d):
             o = Signal(2, name=it["name"])
             m.d.comb += o.eq(ClockSignal(it["dom"]) ^ (ResetSignal(it["dom"], allow_reset_less=True) << 1))
             outs.append(o)
+        elif it["kind"] == "cached":
+            # an elaboratable that builds its contents once and hands out the same object at every elaboration
+            s = Signal(4, name=it["name"])
+            outs.append(s)
+            extra[it["mod"]].append(_cached_wrapper(s, as_module=it.get("cached_as") != "instance", dom=it["dom"]))
         else:
             sub = Module()
             s = Signal(4, name=it["name"])
@@ -121,6 +128,22 @@ def build_conv(d):
     for name in d["defined"]:
         setattr(mods[0].domains, name, ClockDomain(name))
     return mods[0], outs
+
+
+def _cached_wrapper(sig, as_module, dom):
+    from amaranth.hdl import Elaboratable, Instance, Module, Signal
+
+    class Cached(Elaboratable):
+        def __init__(self):
+            if as_module:
+                self.body = Module()
+                self.body.d[dom] += sig.eq(sig + 5)
+            else:
+                self.body = Instance("prim", o_q=sig, p_WIDTH=4)
+
+        def elaborate(self, platform):
+            return self.body
+    return Cached()
 
 
 def convert_design(d, emit_src):
@@ -169,9 +192,13 @@ def check_conversion(rng, out, ndesigns, seeds):
         for s, r in rows.items():
             if not (r[0] == r[4] == r[5] == r[6]):
                 which = [n for n, x in (("first", r[4]), ("second", r[5]), ("after-creating-a-simulator", r[6])) if x != r[0]]
-                out["violations"].append({"mechanism": "rtlil-differs-when-the-same-design-object-is-elaborated-again",
-                                          "detail": {"design": d, "hashseed": s, "differs": which,
-                                                     "has_fsm": any(it["kind"] == "fsm" for it in d["items"])}})
+                excs = sorted({str(x).split(":")[1] for x in (r[5], r[6]) if str(x).startswith("EXC:")})
+                mech = "same-design-object-cannot-be-elaborated-again:" + "+".join(excs) if excs else \
+                       "rtlil-differs-when-the-same-design-object-is-elaborated-again"
+                out["violations"].append({"mechanism": mech,
+                                          "detail": {"design": d, "hashseed": s, "differs": which, "outcomes": [str(x)[:80] for x in r[4:7]],
+                                                     "has_fsm": any(it["kind"] == "fsm" for it in d["items"]),
+                                                     "has_cached_instance": any(it["kind"] == "cached" and it.get("cached_as") == "instance" for it in d["items"])}})
                 break
         out["hist"]["same-object-elaborated-3x"] = out["hist"].get("same-object-elaborated-3x", 0) + len(rows)
         dig = {r[0] for r in rows.values()}
